@@ -785,11 +785,11 @@ theorem isAlpha_not_digit {c : Char} (h : c.isAlpha = true) : c.isDigit = false 
 /-! ### error kinds of the regex-based parsers (whatever the regex engine returns) -/
 
 theorem bin_go_error {l : List (Array String)} {val : Nat} {k : Kind}
-    (h : Bin.parse.go l val = .error k) : k = .inputValue ∨ k = .inputTooLarge := by
+    (h : Bin.parseRx.go l val = .error k) : k = .inputValue ∨ k = .inputTooLarge := by
   induction l generalizing val with
-  | nil => unfold Bin.parse.go at h; cases h
+  | nil => unfold Bin.parseRx.go at h; cases h
   | cons g t ih =>
-    unfold Bin.parse.go at h
+    unfold Bin.parseRx.go at h
     simp only at h
     split at h
     · exact ih h
@@ -803,10 +803,10 @@ theorem bin_go_error {l : List (Array String)} {val : Nat} {k : Kind}
             · injection h with h; exact Or.inr h.symm
             · exact ih h
 
-theorem bin_parse_error {n m : Nat} {v s : String} {k : Kind}
-    (h : Bin.parse n m v s = .error k) :
+theorem bin_parseRx_error {n m : Nat} {v s : String} {k : Kind}
+    (h : Bin.parseRx n m v s = .error k) :
     k = .inputValue ∨ k = .parsing ∨ k = .inputTooLarge := by
-  unfold Bin.parse at h
+  unfold Bin.parseRx at h
   simp only at h
   split at h
   · injection h with h; exact Or.inl h.symm
@@ -821,13 +821,30 @@ theorem bin_parse_error {n m : Nat} {v s : String} {k : Kind}
         · exact Or.inl e
         · exact Or.inr (Or.inr e)
 
+theorem bin_parse_error {n m : Nat} {v s : String} {k : Kind}
+    (h : Bin.parse n m v s = .error k) :
+    k = .inputValue ∨ k = .parsing ∨ k = .inputTooLarge := by
+  unfold Bin.parse at h
+  split at h
+  · split at h
+    · injection h with h; exact Or.inr (Or.inl h.symm)
+    · split at h
+      · cases h
+      · rename_i hk
+        injection h with h
+        subst h
+        rcases bin_go_error hk with e | e
+        · exact Or.inl e
+        · exact Or.inr (Or.inr e)
+  · exact bin_parseRx_error h
+
 theorem u_go_error {α : Type} {F : FOps α} {l : List (Array String)} {out : List (Nat × α)}
-    {k : Kind} (h : UPoly.stringToMap.go F l out = .error k) :
+    {k : Kind} (h : UPoly.stringToMapRx.go F l out = .error k) :
     k = .internal ∨ k = .parsing ∨ k = .conversion := by
   induction l generalizing out with
-  | nil => unfold UPoly.stringToMap.go at h; cases h
+  | nil => unfold UPoly.stringToMapRx.go at h; cases h
   | cons g t ih =>
-    unfold UPoly.stringToMap.go at h
+    unfold UPoly.stringToMapRx.go at h
     simp only at h
     split at h
     · injection h with h; simp [← h]
@@ -853,16 +870,26 @@ theorem u_go_error {α : Type} {F : FOps α} {l : List (Array String)} {out : Li
             · cases hk
           · exact ih h
 
-theorem u_stringToMap_error {α : Type} {F : FOps α} {v s : String} {k : Kind}
-    (h : UPoly.stringToMap F v s = .error k) :
+theorem u_stringToMapRx_error {α : Type} {F : FOps α} {v s : String} {k : Kind}
+    (h : UPoly.stringToMapRx F v s = .error k) :
     k = .internal ∨ k = .parsing ∨ k = .conversion := by
-  unfold UPoly.stringToMap at h
+  unfold UPoly.stringToMapRx at h
   simp only at h
   split at h
   · injection h with h; simp [← h]
   · split at h
     · injection h with h; simp [← h]
     · exact u_go_error h
+
+theorem u_stringToMap_error {α : Type} {F : FOps α} {v s : String} {k : Kind}
+    (h : UPoly.stringToMap F v s = .error k) :
+    k = .internal ∨ k = .parsing ∨ k = .conversion := by
+  unfold UPoly.stringToMap at h
+  split at h
+  · split at h
+    · injection h with h; simp [← h]
+    · exact u_go_error h
+  · exact u_stringToMapRx_error h
 
 theorem u_parse_error {α : Type} {R : UPoly.Ring α} {s : String} {k : Kind}
     (h : UPoly.parse R s = .error k) : k = .internal ∨ k = .parsing ∨ k = .conversion := by
@@ -883,12 +910,12 @@ theorem ext_parse_error {p : Nat} {g : List Nat} {s : String} {k : Kind}
   · injection h with h; exact h.symm
 
 theorem b_go_error {α : Type} {F : FOps α} {v0 v1 : String} {l : List (Array String)}
-    {out : List (Deg × α)} {k : Kind} (h : BPoly.stringToMap.go F v0 v1 l out = .error k) :
+    {out : List (Deg × α)} {k : Kind} (h : BPoly.stringToMapRx.go F v0 v1 l out = .error k) :
     k = .parsing ∨ k = .conversion := by
   induction l generalizing out with
-  | nil => unfold BPoly.stringToMap.go at h; cases h
+  | nil => unfold BPoly.stringToMapRx.go at h; cases h
   | cons g t ih =>
-    unfold BPoly.stringToMap.go at h
+    unfold BPoly.stringToMapRx.go at h
     simp only at h
     split at h
     · injection h with h; simp [← h]
@@ -910,10 +937,10 @@ theorem b_go_error {α : Type} {F : FOps α} {v0 v1 : String} {l : List (Array S
               · injection h with h; simp [← h]
               · exact ih h
 
-theorem b_stringToMap_error {α : Type} {R : BPoly.Ring α} {s : String} {k : Kind}
-    (h : BPoly.stringToMap R s = .error k) :
+theorem b_stringToMapRx_error {α : Type} {R : BPoly.Ring α} {s : String} {k : Kind}
+    (h : BPoly.stringToMapRx R s = .error k) :
     k = .internal ∨ k = .parsing ∨ k = .conversion := by
-  unfold BPoly.stringToMap at h
+  unfold BPoly.stringToMapRx at h
   simp only at h
   split at h
   · injection h with h; simp [← h]
@@ -924,6 +951,18 @@ theorem b_stringToMap_error {α : Type} {R : BPoly.Ring α} {s : String} {k : Ki
       · rcases b_go_error h with e | e
         · exact Or.inr (Or.inl e)
         · exact Or.inr (Or.inr e)
+
+theorem b_stringToMap_error {α : Type} {R : BPoly.Ring α} {s : String} {k : Kind}
+    (h : BPoly.stringToMap R s = .error k) :
+    k = .internal ∨ k = .parsing ∨ k = .conversion := by
+  unfold BPoly.stringToMap at h
+  split at h
+  · split at h
+    · injection h with h; simp [← h]
+    · rcases b_go_error h with e | e
+      · exact Or.inr (Or.inl e)
+      · exact Or.inr (Or.inr e)
+  · exact b_stringToMapRx_error h
 
 theorem b_parse_error {α : Type} {R : BPoly.Ring α} {s : String} {k : Kind}
     (h : BPoly.parse R s = .error k) : k = .internal ∨ k = .parsing ∨ k = .conversion := by
